@@ -9,7 +9,7 @@
    reach e h r i (some path leads from r to i).  Hypotheses a statement does not need have been
    dropped. *)
 From Fiddle Require Import PyBase PySlice Sig ArgStore PyCall Heap Traverse Build Build_stmt
-  Traverse_proofs Build_proofs Tags Select_proofs Anchors.
+  Traverse_proofs Build_proofs Tags Select_proofs.
 From Coq Require Import List.
 Import ListNotations.
 Local Open Scope nat_scope.
